@@ -45,7 +45,9 @@
 (*     finalizer is gone nothing else is written" is not what the code     *)
 (*     promises: it still issues the status write, which is refused with   *)
 (*     NotFound when the finalizer was the last one.  Asserted instead:    *)
-(*     nothing but status is written.)                                     *)
+(*     nothing but status is written.)  Every status write of the deletion *)
+(*     branch says Ready=False/Deleting - the real code breaks this for    *)
+(*     the write that follows the finalizer removal: D16 below.            *)
 (*  P3 Finalizer first.  The Composer only runs for an XR that carries     *)
 (*     the finalizer (in the copy handed to it and in the store).          *)
 (*  P4 Selection.  spec.compositionRef, once set, is changed by the        *)
@@ -82,6 +84,28 @@
 (*     present and (Composition selectable, present, with a valid          *)
 (*     compatible revision) -> composed, Synced=True, naming label and     *)
 (*     connection secret reference in place; else Synced=False.            *)
+(*                                                                         *)
+(* Found by this module on the unchanged tree (2026-10-04):                *)
+(*  D16 (genuine, low severity; formulas Deleting.Condition.AfterFinali-   *)
+(*     zerRemoval and Quiescent.AfterFinalizerRemoval).  The deletion      *)
+(*     branch starts with xr.SetConditions(Deleting()), but the Update     *)
+(*     issued by RemoveFinalizer decodes the server's answer into xr and   *)
+(*     thereby drops every condition set in memory; the status write that  *)
+(*     follows carries Synced=True only.  An XR that outlives the removal  *)
+(*     of our finalizer (it carries another one, e.g. foregroundDeletion)  *)
+(*     keeps Ready=True/Available (or no Ready at all) although it is      *)
+(*     being deleted, until the next reconcile writes Ready=False/Deleting *)
+(*     - the deletion path needs two reconciles to reach its fixed point.  *)
+(*     Replay: scenarios/X03/d16-*.json.                                   *)
+(*  O1 (observation, not judged): see P1.                                  *)
+(* Measured: quick cfgs 6.7k / 143k / 8.8k / 16.5k states; thorough 1.0M / *)
+(* 650k / 23k states; drift 0 (except runs where the code's random pick    *)
+(* among several candidates could not be aligned with the scenario).       *)
+(* Model corrections made while binding: none needed for the call order;   *)
+(* the monitor's Paused.Exit first demanded "never requeued" - the code    *)
+(* requeues when the status update of a paused XR fails (as its comment    *)
+(* says); Exit.Reason.State first judged "no revision" on the state at the *)
+(* status write instead of what the reconcile had listed.                  *)
 (***************************************************************************)
 EXTENDS Integers, Sequences, FiniteSets, TLC
 
